@@ -15,6 +15,9 @@ import (
 // skipped, like in a native map iteration.
 func MapSeq2[M ~map[K]V, K comparable, V any](m M, site string) iter.Seq2[K, V] {
 	return func(yield func(K, V) bool) {
+		if s.active && s.nlive > 1 {
+			MR(m, site)
+		}
 		if len(m) == 0 {
 			return
 		}
